@@ -81,6 +81,10 @@ def layer_kernels(run, mode, cfg, tmp):
         run.count(k, v)
     run.extra.setdefault("kernels_driven", {})[mode] = out["kernels"]
     run.extra.setdefault("call_samples", {})[mode] = out["samples"]
+    if out.get("schedule_dependent_observed"):
+        # thread-schedule dependence of kernel *results* is not part of C20 (it is decided for the kernels that C01, C07,
+        # C11 and C13 speak about, in those checks); listed here as an observation
+        run.extra["schedule_dependent_results_observed"] = out["schedule_dependent_observed"]
     for name, n in out["kernels"].items():
         run.case((mode, name), nontrivial=True)
     run.evaluations += sum(out["kernels"].values()) - len(out["kernels"])
